@@ -20,7 +20,8 @@ LEVEL = ('decides: every unsigned difference in the MaxSAT bound encoder and lin
          '…K<n>): the kernel rules every verdict depends on — predicate algebra, nogood watchers, '
          'minimisers, conflict-analysis tables, nogood deletion, decision read-back, no-learning '
          'resolver, constraint builders, reified reasons — wherever they are not already registered '
-         'here under another id. Does not decide the correctness of the two encodings')
+         'here under another id. The time limit is converted with the unit the option documents (W9). '
+         'Does not decide the correctness of the two encodings')
 TECHNIQUE = "static analysis: guarded-subtraction, dominance, symbolic table recovery and loop-nesting rules over rustc MIR"
 
 # unsigned differences with an arithmetic (not comparison-shaped) safety argument
